@@ -413,7 +413,19 @@ class MNTM(ntm.NTM):
                             # else direction == 'N', i stays the same
 
                             # Handle edge cases with tape separator
-                            if i > 0 and new_tape[i - 1] == tape_separator_symbol:
+                            if direction == "L" and (
+                                i == 0 or new_tape[i - 1] == tape_separator_symbol
+                            ):
+                                # Moved left from the leftmost cell: extend the
+                                # virtual tape with a blank on its left end
+                                new_tape = (
+                                    new_tape[:i]
+                                    + self.blank_symbol
+                                    + head_symbol
+                                    + new_tape[i:]
+                                )
+                                i += 1
+                            elif i > 0 and new_tape[i - 1] == tape_separator_symbol:
                                 i -= 1
                                 new_tape = (
                                     new_tape[:i]
